@@ -683,14 +683,15 @@ Lemma wf_lexpr_args en k l : wf_e en (lexpr k l) -> wf_args en l.
 Proof. destruct k; cbn [lexpr wf_e]; rewrite wf_args_eq; tauto. Qed.
 
 (* ---- the zero-operand "the" forms ---- *)
-Definition the_proc (k : thekind) : string := match k with TSystem => "SystemPropertiesOpcode" | _ => "SpecialPropertiesOpcode" end.
-Definition the_opk (k : thekind) : opclass := match k with TSystem => OSystemProps | _ => OSpecialProps end.
+Definition the_proc (k : thekind) : string :=
+  match k with TSystem => "SystemPropertiesOpcode" | TNumOf => "NumberOfCastElementsOpcode" | _ => "SpecialPropertiesOpcode" end.
+Definition the_opk (k : thekind) : opclass := match k with TSystem => OSystemProps | TNumOf => ONumberOfCastElements | _ => OSpecialProps end.
 Lemma tbl_the k : assocZ (u8 (b 92) * 256 + u8 (b (the_code k))) BI_OPCODES = Some (2, "BiOpcode", the_proc k, "").
 Proof. destruct k; vm_compute; reflexivity. Qed.
 Lemma the_len k : (List.length (the_table k) <= 64)%nat.
 Proof. destruct k; vm_compute; lia. Qed.
-Lemma the_len6 k : k <> TSystem -> List.length (the_table k) = 6%nat.
-Proof. destruct k; intros H; try reflexivity. congruence. Qed.
+Lemma the_len6 k : k <> TSystem -> k <> TNumOf -> List.length (the_table k) = 6%nat.
+Proof. destruct k; intros H H'; try reflexivity; congruence. Qed.
 Lemma the_small k i : (i < List.length (the_table k))%nat -> (i + 6 < 512)%nat.
 Proof. pose proof (the_len k). lia. Qed.
 Lemma the_num_nat k i : the_num k i = Z.of_nat (match k with TDateTime => i + 6 | _ => i end).
@@ -708,15 +709,17 @@ Proof.
   { unfold int_name. cbn [name_of]. rewrite the_num_nat. rewrite int_of_str_small by (destruct k; lia). reflexivity. }
   destruct k; cbn [the_opk process the_table the_node] in *.
   - unfold special_props. rewrite Epop. cbn [bind]. rewrite Eint. cbn [bind]. unfold the_num.
-    assert (H6 : (i < 6)%nat) by (pose proof (the_len6 TSpecial ltac:(discriminate)) as L6; cbn [the_table] in L6; lia).
+    assert (H6 : (i < 6)%nat) by (pose proof (the_len6 TSpecial ltac:(discriminate) ltac:(discriminate)) as L6; cbn [the_table] in L6; lia).
     destruct (Z.ltb_spec (Z.of_nat i) 6); [|lia]. rewrite nth_name_ok by exact Hi. reflexivity.
   - unfold special_props. rewrite Epop. cbn [bind]. rewrite Eint. cbn [bind]. unfold the_num.
-    assert (H6 : (i < 6)%nat) by (pose proof (the_len6 TDateTime ltac:(discriminate)) as L6; cbn [the_table] in L6; lia).
+    assert (H6 : (i < 6)%nat) by (pose proof (the_len6 TDateTime ltac:(discriminate) ltac:(discriminate)) as L6; cbn [the_table] in L6; lia).
     destruct (Z.ltb_spec (Z.of_nat i + 6) 6); [lia|]. destruct (Z.ltb_spec (Z.of_nat i + 6) 12); [|lia].
     replace (Z.of_nat i + 6 - 6) with (Z.of_nat i) by lia. rewrite nth_name_ok by exact Hi. reflexivity.
   - unfold system_props. rewrite Epop. cbn [bind]. rewrite Eint. cbn [bind]. unfold the_num.
     rewrite nth_name_ok by exact Hi. cbn [bind].
     assert (Hc : c_tell (m_ctx (with_stack m st)) = false) by (destruct m; exact Ht). rewrite Hc. reflexivity.
+  - rewrite Epop. cbn [bind]. rewrite Eint. cbn [bind]. unfold the_num. rewrite nth_name_ok by exact Hi. cbn [bind].
+    unfold local_of. destruct (String.eqb (nth i NUM_OF_TYPES "") "perFrameHook"); reflexivity.
 Qed.
 
 Lemma exec_the en k i : wf_e en (EThe k i) -> exec_spec en (EThe k i).
